@@ -19,7 +19,11 @@ const prettyPrintValue = (it: unknown): string => {
   if (typeof it === "object") {
     return `Object`;
   }
-  return JSON.stringify(it);
+  if (typeof it === "bigint") {
+    return `${it}n`;
+  }
+  // undefined, functions and symbols: JSON.stringify returns undefined for them
+  return String(it);
 };
 
 const joinWithDot = (it: string[]): string => {
